@@ -1,8 +1,10 @@
-import MiniconfVerif.Lemmas.Walk
+import MiniconfVerif.Lemmas.WalkLog
 
 /-! # C12 — accessor, validator and deny attributes are invoked in the documented protocol
-(field-level protocol as equations of the walk + the global "validators only on
-deserializing writes" theorem; the path-level ordering theorem is being added) -/
+
+Model: `Tree.walk` with its call log (`Ev.get`, `Ev.getMut`, `Ev.validate id depth`), see
+Model/Tree.lean.  Field-level protocol as equations of the walk; `call_order` and
+`validators_only_after_success` are the path-level statements for every tree. -/
 namespace MiniconfVerif.C12
 open MiniconfVerif
 
@@ -11,6 +13,28 @@ call log of serialize / ref_any / mut_any contains no validator call. -/
 theorem validators_only_on_de (io : Io) (op : Op) (h : op ≠ .de) (t : Tree) (ks : KeySrc) :
     ∀ e ∈ (t.walk io op ks).log, e.isValidate = false :=
   walk_no_validate io op h t ks
+
+/-- **Call order along the whole path**, for every tree, runtime state, operation, key and
+codec: the call log is a block of accessor calls (made top-down on the way to the leaf)
+followed by a block of validator calls (made bottom-up on the way back); no accessor is ever
+called after a validator. -/
+theorem call_order (io : Io) (op : Op) (t : Tree) (ks : KeySrc) :
+    ∃ g v, (t.walk io op ks).log = g ++ v ∧ (∀ e ∈ g, e.isValidate = false) ∧ (∀ e ∈ v, e.isValidate = true) := by
+  obtain ⟨g, v, h1, h2, h3, _⟩ := walk_logShape io op t ks
+  exact ⟨g, v, h1, h2, h3⟩
+
+/-- **Validators run only after the leaf was updated**: if the access ends in anything but
+`Ok` or a validator rejection — a traversal error, a deny attribute, a failing accessor, a
+(de)serialization error — no validator was called at all. -/
+theorem validators_only_after_success (io : Io) (op : Op) (t : Tree) (ks : KeySrc)
+    (h : (t.walk io op ks).res.okOrInvalid = false) : ∀ e ∈ (t.walk io op ks).log, e.isValidate = false := by
+  obtain ⟨g, v, h1, h2, h3, h4⟩ := walk_logShape io op t ks
+  have hv : v = [] := by
+    cases v with
+    | nil => rfl
+    | cons x xs => have := h4 (by simp); rw [h] at this; cases this
+  rw [h1, hv, List.append_nil]
+  exact h2
 
 /-- a deny attribute stops the walk at its field: `Access(0, msg)` (depth added by the
 node), no accessor, no leaf access, no validator, tree unchanged -/
